@@ -86,6 +86,22 @@ def run(pid, tier):
                 key_fn=lambda c: (c["ntasks"], c["slots"], c["max_in_flight"], c["overtakes"], c["result"],
                                   tuple(tuple(x["r"] for x in t["results"]) for t in c["tasks"])),
                 sample_fn=lambda c: c["overtakes"] > 3)
+    # frame-level events of the same runs replayed on Tasks.tla (one TLC run per storage size and task count)
+    groups_ = {}
+    with open(raw) as fi:
+        for line in fi:
+            c = json.loads(line)
+            if c.get("result") != "ok" or "events" not in c or len(c["events"]) > 6000:
+                continue
+            key_ = (c["case"]["frames"], len(c["case"]["tasks"]))
+            groups_.setdefault(key_, []).append(dict(case=dict(id=c["case"]["id"]), events=c["events"]))
+    for (slots, nt), recs in sorted(groups_.items()):
+        ev = os.path.join(sc.wd, f"events-{slots}-{nt}.ndjson")
+        with open(ev, "w") as fo:
+            for r_ in recs:
+                fo.write(json.dumps(r_) + "\n")
+        sc.validate(f"events-{slots}s-{nt}t", ev, "TasksEventTrace", dict(NTasks=nt, Slots=slots, Ops=100000, IdxMod=256),
+                    constraints=("Track", "Judge"), key_fn=lambda c: (len(c["events"]),), sample_fn=lambda c: False)
     return sc.finish(
         "one case = one seeded schedule of 2..4 tasks on one MainDevice, compared operation by operation with the same tasks run "
         "alone; distinct by (tasks, slots, frames in flight, overtakes, results)",
@@ -93,7 +109,9 @@ def run(pid, tier):
          "group, one SDO task per SubDevice, written objects are not read).",
          "Tasks are cooperative futures on one thread (the property's quantifier); thread-level interleavings of the frame "
          "storage are the subject of C01-C03/C06.",
-         "The datagram index does not wrap while a frame is outstanding in these runs (at most a few dozen frames per case)."])
+         "The datagram index does not wrap while a frame is outstanding in these runs (at most a few dozen frames per case).",
+         "Frame-level events come from ethercrab's verification hooks (slot state changes with the party that made them); "
+         "whether a compare-exchange succeeded is derived from the tracked slot state, which is exact on one thread."])
 
 
 def replay(pid, tier, path):
